@@ -207,6 +207,30 @@ pub enum Instr {
 }
 
 impl Instr {
+    /// registers read by this instruction
+    pub fn operands(&self) -> Vec<Reg> {
+        use Instr::*;
+        match self {
+            Clone { a, .. } | Drop { a } | NodeCount { a } | EvalAll { a } | Not { a, .. } | NotOwned { a, .. }
+            | Cof { a, .. } | SatValid { a } | Restrict { a, .. } | Quantify { a, .. } | Subst { a, .. }
+            | PickCube { a, .. } | PickCubeDd { a, .. } | PickCubeDdSet { a, .. } | PickUniform { a, .. }
+            | SatCount { a, .. } | ZUn { a, .. } | NRestrict { a, .. } | TNot { a, .. } | TCof { a, .. } => vec![*a],
+            Bin { a, b, .. } | ApplyQuant { a, b, .. } | ZBin { a, b, .. } | NBin { a, b, .. } | TBin { a, b, .. } => vec![*a, *b],
+            Ite { a, b, c, .. } | TIte { a, b, c, .. } => vec![*a, *b, *c],
+            NIte { c, t, e, .. } => vec![*c, *t, *e],
+            ZMakeNode { hi, lo, .. } => vec![*hi, *lo],
+            SubstNew { pairs, .. } => pairs.iter().map(|p| p.1).collect(),
+            Dddmp { opts, .. } => opts.roots.clone(),
+            _ => vec![],
+        }
+    }
+    /// substitution slot read by this instruction
+    pub fn subst_slot(&self) -> Option<u8> {
+        match self {
+            Instr::Subst { s, .. } => Some(*s),
+            _ => None,
+        }
+    }
     /// does this instruction (potentially) create nodes?
     pub fn creates_nodes(&self) -> bool {
         use Instr::*;
@@ -247,6 +271,10 @@ pub struct Config {
     pub probe: bool,
     /// tight capacity expected: OutOfMemory results are legal
     pub oom_ok: bool,
+    /// do not steer clear of reordering / adding variables when the manager is nearly
+    /// full (those operations abort the process on allocation failure: known finding)
+    #[serde(default)]
+    pub unguarded: bool,
 }
 
 #[derive(Clone, Debug, PartialEq, Eq, Serialize, Deserialize)]
